@@ -11,11 +11,11 @@ trap 'git -C /repo worktree remove --force $WT' EXIT
 cd $WT
 cp $SD/demo/*.go $PKG/ 2>/dev/null
 echo "## demo on clean tree (HEAD $(git rev-parse --short HEAD))" >> $OUT
-if go test -vet=off -count=1 -timeout 10m -run "$RX" ./$PKG/ >> $OUT 2>&1; then echo "CLEAN: PASS" >> $OUT; else echo "CLEAN: FAIL" >> $OUT; fi
+if go test ${DEMO_FLAGS:-} -vet=off -count=1 -timeout 10m -run "$RX" ./$PKG/ >> $OUT 2>&1; then echo "CLEAN: PASS" >> $OUT; else echo "CLEAN: FAIL" >> $OUT; fi
 git apply --whitespace=nowarn $SD/patch.diff >> $OUT 2>&1 || { echo "PATCH: DOES NOT APPLY" >> $OUT; exit 1; }
 if go build ./... >> $OUT 2>&1; then echo "BUILD: OK" >> $OUT; else echo "BUILD: FAIL" >> $OUT; fi
 echo "## demo on patched tree" >> $OUT
-if go test -vet=off -count=1 -timeout 10m -run "$RX" ./$PKG/ > /tmp/confirm-$$.log 2>&1; then echo "PATCHED: PASS (demo does not detect)" >> $OUT; else tail -15 /tmp/confirm-$$.log >> $OUT; echo "PATCHED: FAIL (as intended)" >> $OUT; fi
+if go test ${DEMO_FLAGS:-} -vet=off -count=1 -timeout 10m -run "$RX" ./$PKG/ > /tmp/confirm-$$.log 2>&1; then echo "PATCHED: PASS (demo does not detect)" >> $OUT; else tail -15 /tmp/confirm-$$.log >> $OUT; echo "PATCHED: FAIL (as intended)" >> $OUT; fi
 rm -f /tmp/confirm-$$.log
 for f in $SD/demo/*.go; do rm -f $PKG/$(basename $f); done
 PKGS=$( (git diff --name-only | xargs -n1 dirname; echo $PKG) | sort -u | sed 's|^|./|;s|$|/...|' | tr '\n' ' ')
